@@ -358,7 +358,9 @@ Section WithTable.
     wf_m_rule: ~ In mode_key (rule_fields T);
     wf_dflt  : t_mode_dflt T <> EmptyString;
     wf_dkeys : NoDup (map fst (t_defaults T));
-    wf_indef : forall k, In k (fixed ++ srcs ++ dsts) -> In k (map fst (t_defaults T)) }.
+    wf_indef : forall k, In k (fixed ++ srcs ++ dsts) -> In k (map fst (t_defaults T));
+    wf_pos   : t_derive_pos T = Some (List.length (t_aliases T));
+    wf_g_src : ~ In g srcs }.
 
   Lemma alias_ok_spec a : alias_ok sch a = true ->
     a_rfld a = a_src a /\ truthy_atom (a_rval a) = false /\
@@ -411,6 +413,10 @@ Section WithTable.
     - apply nodup_str_NoDup; assumption.
     - match goal with X : forallb _ (fixed ++ srcs ++ dsts) = true |- _ =>
         rewrite forallb_forall in X; intros k Hk; apply mem_str_In; apply X; exact Hk end.
+    - destruct (t_derive_pos T) as [n|]; [|discriminate].
+      match goal with X : Nat.eqb n _ = true |- _ => apply Nat.eqb_eq in X; rewrite X; reflexivity end.
+    - match goal with X : negb (mem_str g srcs) = true |- _ =>
+        apply negb_true_iff in X; apply mem_str_false in X; exact X end.
   Qed.
 End WithTable.
 
@@ -641,6 +647,17 @@ Section Verify.
     rewrite (Hk (fst c)); [reflexivity|]. apply (rule_for_fields m _ c Hc).
   Qed.
 
+  (* with the use_mpi block after all alias blocks, _verify is: mode default, mode
+     checks, alias pass, use_mpi *)
+  Lemma vfy_wf d :
+    vfy T d = if rules_ok T (set_mode T d)
+              then derive_step (t_derive T) (alias_pass T (set_mode T d)) else inl ValueError.
+  Proof.
+    unfold vfy. rewrite (wf_pos T W), firstn_all, skipn_all. fold (alias_pass T (set_mode T d)).
+    destruct (rules_ok T (set_mode T d)); [|reflexivity].
+    destruct (derive_step (t_derive T) (alias_pass T (set_mode T d))); reflexivity.
+  Qed.
+
   (* everything verify does, in one place *)
   Lemma verify_inv d d' :
     verify T d = inr d' ->
@@ -648,7 +665,7 @@ Section Verify.
       /\ rules_ok T (set_mode T d1) = true
       /\ derive_step (t_derive T) (alias_pass T (set_mode T d1)) = inr d'.
   Proof.
-    unfold verify, vfy. fold sch. destruct (typecheck sch d) as [e|d1]; [discriminate|].
+    unfold verify. fold sch. destruct (typecheck sch d) as [e|d1]; [discriminate|]. rewrite vfy_wf.
     destruct (rules_ok T (set_mode T d1)) eqn:E; [|discriminate].
     intro H. exists d1; repeat split; assumption.
   Qed.
@@ -681,7 +698,7 @@ Section Verify.
       - intro He; subst k. destruct Hk as [Hk|Hk].
         + apply (wf_f_mode T W); symmetry; exact Hk.
         + apply (wf_f_rule T W); exact Hk. }
-    unfold verify. fold sch. rewrite Hs. unfold vfy.
+    unfold verify. fold sch. rewrite Hs. rewrite vfy_wf.
     assert (Em : set_mode T d' = d').
     { unfold set_mode. rewrite (Ffix mode_key) by (left; reflexivity).
       unfold dm; rewrite mode_truthy; reflexivity. }
@@ -732,7 +749,7 @@ Section Verify.
   (* a missing required (or present forbidden) attribute is rejected *)
   Theorem verify_mode_rejects d d1 :
     typecheck sch d = inr d1 -> rules_ok T (set_mode T d1) = false -> verify T d = inl ValueError.
-  Proof. intros H1 H2. unfold verify, vfy. fold sch. rewrite H1, H2. reflexivity. Qed.
+  Proof. intros H1 H2. unfold verify. fold sch. rewrite H1, vfy_wf, H2. reflexivity. Qed.
 
   (* deprecated names are mapped onto their replacements with the same values *)
   Theorem verify_alias a d d' t sv :
@@ -1094,3 +1111,160 @@ Proof.
   destruct (pd_rules d1); [|discriminate]. intros H Hk; injection H as <-.
   split; [apply (typecheck_getv _ _ _ _ _ E Hk)|apply (typecheck_keys _ _ _ E)].
 Qed.
+
+(* ================================================================== *)
+(* deprecated spelling and current spelling verify to the same thing    *)
+
+Lemma alias_step_agree m a d d' :
+  a_src a <> m -> a_dst a <> m -> a_rfld a <> m ->
+  (forall k, k <> m -> getv k d = getv k d') ->
+  forall k, k <> m -> getv k (alias_step d a) = getv k (alias_step d' a).
+Proof.
+  intros Hs Hd Hr H k Hk. unfold alias_step. rewrite <- (H (a_src a) Hs).
+  destruct (truthy (getv (a_src a) d)); [|apply H; exact Hk].
+  destruct (String.eqb_spec (a_rfld a) k) as [->|N1].
+  - rewrite !getv_set_same; reflexivity.
+  - rewrite (getv_set_other (a_rfld a) k) by exact N1.
+    rewrite (getv_set_other (a_rfld a) k) by exact N1.
+    destruct (String.eqb_spec (a_dst a) k) as [->|N2].
+    + rewrite !getv_set_same; reflexivity.
+    + rewrite !getv_set_other by exact N2. apply H; exact Hk.
+Qed.
+
+Lemma fold_agree m l : forall d d',
+  (forall a, In a l -> a_src a <> m /\ a_dst a <> m /\ a_rfld a <> m) ->
+  (forall k, k <> m -> getv k d = getv k d') ->
+  forall k, k <> m -> getv k (fold_left alias_step l d) = getv k (fold_left alias_step l d').
+Proof.
+  induction l as [|a r IH]; intros d d' Ha H k Hk; [apply H; exact Hk|]. simpl.
+  apply IH; [intros b Hb; apply Ha; right; exact Hb| |exact Hk].
+  destruct (Ha a (or_introl eq_refl)) as (A1 & A2 & A3).
+  apply alias_step_agree; assumption.
+Qed.
+
+Lemma derive_step_cases fg x y :
+  getv (fst fg) x = getv (fst fg) y -> getv (snd fg) x = getv (snd fg) y ->
+  match derive_step fg x, derive_step fg y with
+  | inl e, inl e' => e = e'
+  | inr x', inr y' =>
+      (x' = x /\ y' = y) \/ exists b, x' = set (fst fg) (VA (ABool b)) x /\ y' = set (fst fg) (VA (ABool b)) y
+  | _, _ => False
+  end.
+Proof.
+  intros Hf Hg. unfold derive_step. rewrite <- Hf, <- Hg.
+  destruct (getv (fst fg) x) as [[|b|z|h|s]|l|l]; try (left; split; reflexivity).
+  destruct (getv (snd fg) x) as [[|b|z|h|s]|l|l]; try reflexivity; right; eexists; split; reflexivity.
+Qed.
+
+Section Twin.
+  Variable T : table.
+  Hypothesis W : WF T.
+  Let sch := t_schema T.
+  Let srcs := map a_src (t_aliases T).
+  Let f := fst (t_derive T).
+  Let g := snd (t_derive T).
+
+  (* t is a twin of the type-checked description d1: it carries no deprecated name, and every
+     other attribute has the value the alias mapping gives it (the replacement of a set
+     deprecated name holds its converted value, everything else is as in d1) *)
+  Definition twin_of (d1 t : descr) : Prop :=
+    stable sch t
+    /\ (forall k, ~ In k srcs -> getv k t = getv k (alias_pass T d1))
+    /\ (forall k, In k srcs -> truthy (getv k t) = false).
+
+  (* same exception, or accepted descriptions equal on every attribute except the deprecated
+     names themselves, which are unset in both *)
+  Definition res_sim (r r' : perr + descr) : Prop :=
+    match r, r' with
+    | inl e, inl e' => e = e'
+    | inr v, inr v' =>
+        (forall k, ~ In k srcs -> getv k v = getv k v')
+        /\ (forall k, In k srcs -> truthy (getv k v) = false /\ truthy (getv k v') = false)
+    | _, _ => False
+    end.
+
+  Lemma aliases_avoid_mode a :
+    In a (t_aliases T) -> a_src a <> mode_key /\ a_dst a <> mode_key /\ a_rfld a <> mode_key.
+  Proof.
+    intro Ha.
+    assert (S1 : a_src a <> mode_key).
+    { intro He. apply (wf_fix_s T W mode_key); [left; reflexivity|]. rewrite <- He. apply in_map; exact Ha. }
+    repeat split; [exact S1| |rewrite (wf_rfld T W a Ha); exact S1].
+    intro He. apply (wf_fix_d T W mode_key); [left; reflexivity|]. rewrite <- He. apply in_map; exact Ha.
+  Qed.
+
+  Lemma set_mode_other d k : k <> mode_key -> getv k (set_mode T d) = getv k d.
+  Proof.
+    intro H. unfold set_mode. destruct (truthy (getv mode_key d)); [reflexivity|].
+    apply getv_set_other. congruence.
+  Qed.
+
+  Lemma set_mode_fold d k :
+    k <> mode_key -> getv k (alias_pass T (set_mode T d)) = getv k (alias_pass T d).
+  Proof.
+    intro Hk. unfold alias_pass. apply (fold_agree mode_key); [apply aliases_avoid_mode| |exact Hk].
+    intros k' Hk'. apply set_mode_other; exact Hk'.
+  Qed.
+
+  Lemma set_mode_mode d d' :
+    getv mode_key d = getv mode_key d' -> getv mode_key (set_mode T d) = getv mode_key (set_mode T d').
+  Proof.
+    intro H. unfold set_mode. rewrite <- H. destruct (truthy (getv mode_key d)); [exact H|].
+    rewrite !getv_set_same; reflexivity.
+  Qed.
+
+  Lemma mode_not_src : ~ In mode_key srcs.
+  Proof. apply (wf_fix_s T W); left; reflexivity. Qed.
+
+  Theorem twin_verify d d1 t :
+    typecheck sch d = inr d1 -> twin_of d1 t -> res_sim (verify T t) (verify T d).
+  Proof.
+    intros Hd (Ht & Hout & Hsrc).
+    unfold verify. fold sch. rewrite Hd. unfold stable in Ht. rewrite Ht.
+    rewrite !(vfy_wf T W).
+    set (tm := set_mode T t). set (dm := set_mode T d1). set (d2 := alias_pass T dm).
+    (* the twin after the mode default agrees with the mapped original outside the deprecated names *)
+    assert (Hm : getv mode_key tm = getv mode_key dm).
+    { apply set_mode_mode. rewrite (Hout _ mode_not_src). apply (fixed_fold T W); left; reflexivity. }
+    assert (Hagree : forall k, ~ In k srcs -> getv k tm = getv k d2).
+    { intros k Hk. destruct (String.eqb_spec k mode_key) as [->|Hn].
+      - rewrite Hm. unfold d2. symmetry. apply (fixed_fold T W); left; reflexivity.
+      - unfold tm, d2, dm. rewrite set_mode_other by exact Hn. rewrite set_mode_fold by exact Hn.
+        apply Hout; exact Hk. }
+    assert (Hfalsy : forall k, In k srcs -> truthy (getv k tm) = false).
+    { intros k Hk. unfold tm. rewrite set_mode_other; [apply Hsrc; exact Hk|].
+      intro He; subst k. exact (mode_not_src Hk). }
+    assert (Hnoop : alias_pass T tm = tm).
+    { unfold alias_pass. apply fold_noop. intros a Ha. apply Hfalsy. apply in_map; exact Ha. }
+    assert (Hfix : forall k, In k (mode_key :: f :: rule_fields T) -> ~ In k srcs)
+      by (intros k Hk; apply (wf_fix_s T W); exact Hk).
+    assert (Hrules : rules_ok T tm = rules_ok T dm).
+    { apply rules_ok_ext; [exact Hm|]. intros k Hk.
+      rewrite Hagree by (apply Hfix; right; right; exact Hk).
+      unfold d2. apply (fixed_fold T W). right; right; exact Hk. }
+    rewrite Hrules, Hnoop. destruct (rules_ok T dm); [|reflexivity].
+    assert (Hf : ~ In f srcs) by (apply Hfix; right; left; reflexivity).
+    pose proof (derive_step_cases (t_derive T) tm d2 (Hagree _ Hf) (Hagree _ (wf_g_src T W))) as Hc.
+    assert (Hd2 : forall k, In k srcs -> truthy (getv k d2) = false).
+    { intros k Hk. apply in_map_iff in Hk as (a & <- & Ha).
+      unfold d2, alias_pass. apply fold_src_falsy; [apply (good_aliases T W)|apply (wf_rval T W)|exact Ha]. }
+    destruct (derive_step (t_derive T) tm) as [e|x'], (derive_step (t_derive T) d2) as [e'|y']; try exact Hc.
+    destruct Hc as [[-> ->]|[b [-> ->]]].
+    - split; [exact Hagree|]. intros k Hk; split; [apply Hfalsy|apply Hd2]; exact Hk.
+    - fold f. split.
+      + intros k Hk. destruct (String.eqb_spec f k) as [<-|Hn].
+        * rewrite !getv_set_same; reflexivity.
+        * rewrite !getv_set_other by exact Hn. apply Hagree; exact Hk.
+      + intros k Hk. assert (Hn : f <> k) by (intro; subst k; exact (Hf Hk)).
+        rewrite !getv_set_other by exact Hn. split; [apply Hfalsy|apply Hd2]; exact Hk.
+  Qed.
+
+  (* such twins exist: the mapped description itself is one *)
+  Lemma alias_pass_is_twin d d1 : typecheck sch d = inr d1 -> twin_of d1 (alias_pass T d1).
+  Proof.
+    intro Hd. repeat split.
+    - apply (stable_fold T W); [auto|]. apply (typecheck_idem _ _ _ Hd).
+    - intros k Hk. apply in_map_iff in Hk as (a & <- & Ha).
+      unfold alias_pass. apply fold_src_falsy; [apply (good_aliases T W)|apply (wf_rval T W)|exact Ha].
+  Qed.
+End Twin.
